@@ -1,5 +1,6 @@
 import LettreVerif.Model.Builder
 import LettreVerif.Proofs.Builder
+import LettreVerif.Proofs.Peg
 /-!
 # C01 — Built message's envelope carries exactly the sender and recipients given
 
@@ -98,6 +99,28 @@ theorem spec_calls_accumulate (t : Typed) (m : MBox) :
 theorem builder_refines_spec (e : Address.Env) (G : List Char → Prop) (hrt : EmailsRoundTrip e G) (prog : List Op)
     (hg : ∀ op ∈ prog, GoodOp G op) : run e prog = conv (specRun prog) :=
   run_refines e G hrt prog hg
+
+/-- **The refinement, unconditionally for dot-atom addresses.** The hypothesis of `builder_refines_spec` is a theorem
+    (`Proofs/Peg.lean`: the grammar reads back what Display writes, for every name) for the class of addresses
+    `local@domain` with both sides dot-atoms: for every program over such addresses — any names, any order of calls —
+    the builder yields exactly the specified envelope, Bcc decision or error.  Addresses with a quoted local part or a
+    domain literal are outside this theorem and are covered by the correspondence check only. -/
+theorem builder_refines_spec_dot_atoms (e : Address.Env) (prog : List Op)
+    (hg : ∀ op ∈ prog, GoodOp (LV.PegProof.GoodAddr e) op) : run e prog = conv (specRun prog) :=
+  run_refines e _ (LV.PegProof.emails_round_trip e) prog hg
+
+/-- non-vacuity of `builder_refines_spec_dot_atoms`: a program over addresses in the class, with a name that must be
+    quoted and the same address used twice -/
+example :
+    let e : Address.Env := ⟨fun c => Peg.isAlpha c || Peg.isDigit c, fun _ => none, fun _ => false⟩
+    let ab : List Char := ['a', '.', 'b', '@', 'c', '.', 'd']
+    ∀ op ∈ ([.add .from_ ⟨none, ab⟩, .add .to ⟨some ['x', ',', '"', 'y'], ab⟩, .keepBcc, .add .bcc ⟨none, ab⟩] : List Op),
+      GoodOp (LV.PegProof.GoodAddr e) op := by
+  intro e ab op hop
+  have hab : LV.PegProof.GoodAddr e ab :=
+    LV.PegProof.addrClassB_sound _ ['a', '.', 'b'] ['c', '.', 'd'] (by decide) (by rfl)
+  simp only [List.mem_cons, List.not_mem_nil, or_false] at hop
+  rcases hop with h | h | h | h <;> subst h <;> first | exact hab | trivial
 
 /-- Display of a mailbox or a mailbox list never fails (CR and LF of a name are written as quoted-pairs): the
     builder cannot panic in `header.display()`. -/
